@@ -1,24 +1,49 @@
-import Httpcache.Driver.Replay
+import Httpcache.Driver.Monitors
 open Httpcache Httpcache.Driver
 
-partial def loop (stdin : IO.FS.Stream) (h : Hist) (nOk nDiff : Nat) : IO (Nat × Nat) := do
+/-- per-exchange outcome tag for the distribution report -/
+def exTag (h : Hist) (ri : ReqIn) : String :=
+  match h.ex ri with
+  | none => "nores"
+  | some x =>
+    let st := match statusValues x.res.hdr with
+      | [v] => String.ofList v
+      | _ => "?"
+    let k := if x.res.kind == "resp" then s!"{x.res.status}/{st}" else x.res.kind
+    let c := if x.fgCalls.isEmpty then "" else "+call"
+    let b := if x.bgCalls.isEmpty then "" else "+bg"
+    k ++ c ++ b
+
+def signature (h : Hist) : String := String.intercalate "," (h.reqs.map (exTag h))
+
+def nontrivial (h : Hist) : Bool :=
+  h.reqs.any fun ri => match h.ex ri with
+    | some x => x.fromStore || x.res.kind != "resp" || !x.bgCalls.isEmpty || isSynth504 x
+    | none => true
+
+partial def loop (prop : String) (stdin : IO.FS.Stream) (h : Hist) (inHash : UInt64) : IO Unit := do
   let line ← stdin.getLine
-  if line.isEmpty then return (nOk, nDiff)
+  if line.isEmpty then return ()
   let line := (line.dropEndWhile (· == '\n')).toString
   if line.startsWith "E\t" then
     let h := h.finish
-    match checkHistory h with
-    | none =>
-      IO.println s!"OK\t{h.id}"
-      loop stdin {} (nOk + 1) nDiff
-    | some d =>
-      IO.println s!"DIFF\t{h.id}\t{d}"
-      loop stdin {} nOk (nDiff + 1)
+    let mon := monitorFor prop h
+    let corr := checkHistory h
+    IO.println s!"STAT\t{h.id}\t{h.cls}\t{inHash}\t{if nontrivial h then 1 else 0}\t{signature h}"
+    match mon with
+    | some m => IO.println s!"MON\t{h.id}\t{m}"
+    | none => pure ()
+    match corr with
+    | some d => IO.println s!"DIFF\t{h.id}\t{d}"
+    | none => pure ()
+    if mon.isNone && corr.isNone then IO.println s!"OK\t{h.id}"
+    loop prop stdin {} 7
   else
-    loop stdin (parseLine h line) nOk nDiff
+    let inHash := if line.startsWith "I\t" then mixHash inHash (hash line) else inHash
+    loop prop stdin (parseLine h line) inHash
 
-def main (_args : List String) : IO UInt32 := do
+def main (args : List String) : IO UInt32 := do
+  let prop := args.headD ""
   let stdin ← IO.getStdin
-  let (a, b) ← loop stdin {} 0 0
-  IO.println s!"SUMMARY\tok={a}\tdiff={b}"
+  loop prop stdin {} 7
   return 0
